@@ -14,9 +14,10 @@ import (
 	"pgregory.net/rapid"
 
 	"verifharness/hx"
+	"verifharness/wire"
 )
 
-func TestMain(m *testing.M) { hx.Main(m) }
+func TestMain(m *testing.M) { wire.Init(false); hx.Main(m) }
 
 // ---------------------------------------------------------------------------
 // (a) no configuration text can crash table construction or the lookups on
